@@ -339,9 +339,14 @@ class QvmCpu:
 
         self.prev_pc = self.pc
         instr_addr = self.pc
-        if instr_addr in self.stmt_starts and self.cur_frame is not None:
-            self.cur_frame.stmt_stack_depth = len(self.stack)
         instr, operands, size = self.get_current_instruction()
+        if instr_addr in self.stmt_starts and \
+           self.cur_frame is not None and \
+           not (instr is not None and instr.op == 'frame'):
+            # (the statement of a SUB or FUNCTION starts at its frame
+            # instruction, which still runs in the caller's frame, in
+            # the middle of the calling statement)
+            self.cur_frame.stmt_stack_depth = len(self.stack)
         self.pc += size
         if instr is None:
             return
